@@ -240,4 +240,115 @@ example : ∃ gs : List GenBlock, gs.length = 2
       (fun _ _ _ _ => Nat.mod_lt _ (by decide)) (by decide) (by decide) (by decide) (by decide)
   exact ⟨gs, by rw [h4]; decide, by rw [h5]; simp [List.append_nil]⟩
 
+/-! ## structured payload content: payload octets that are themselves a PDU of the protocol
+
+Round 4.  Two realistic receiver changes are invisible to every payload that does not contain protocol data
+units of its own: (1) "two blocks in a row that read as confirmed blocks with serial numbers k, k+1 and a true
+CRC-9 switch the tracker to confirmed mode" — needs an unconfirmed payload with two adjacent blocks that are
+serialised confirmed blocks; (2) "a block whose bits equal the header's is a repeated header and is dropped
+from the hand-over" — needs a payload block equal to the transmission's OWN header, which exists because the
+header depends on the payload through its length only (pad count, blocks to follow).  Both are instances of
+`generated_received`; they are stated here so that the class is explicit: whatever the octets `pdu` inside the
+payload are, all N blocks are handed over, they concatenate to the whole payload, and every block is typed in
+the mode of the header (the A bit), never in a mode read off the payload. -/
+
+theorem pdu_content_delivered_whole (C : Crc) (raw : CsbkRaw) (r : Rate) (pre pdu post : Bytes)
+    (gh : GenHeader) (k cc : Nat) (raises : List Bool) (two : Bool)
+    (hpre : ∀ b ∈ pre, b < 256) (hpdu : ∀ b ∈ pdu, b < 256) (hpost : ∀ b ∈ post, b < 256)
+    (hcrc32 : ∀ d, C.crc32 d < 2 ^ 32) (hcrc9 : ∀ r d s c, C.crc9 r d s c < 2 ^ 9)
+    (hpoc : gh.poc = padOf r gh.hdr.a (pre ++ pdu ++ post))
+    (hbtf : gh.hdr.btf = some (nBlocks r gh.hdr.a (pre ++ pdu ++ post)))
+    (hn : nBlocks r gh.hdr.a (pre ++ pdu ++ post) ≤ 127) (hk : k ≤ 16) :
+    ∃ (bursts : List AbsBurst) (t : Terminal) (recs : List Rec) (gs : List GenBlock),
+      generate C raw r (pre ++ pdu ++ post) gh k cc = .ok bursts
+      ∧ run (Terminal.init raises) (bursts.map fun b => (two, b)) = .ok (t, recs)
+      ∧ allEvents recs =
+          [.started .data,
+           .dataEnded (.data gh.hdr)
+             ((preambleBtfs k (nBlocks r gh.hdr.a (pre ++ pdu ++ post) + 1)).map (fun b => Block.csbk (raw b))
+               ++ [.hdr gh.hdr] ++ gs.map typed)]
+      ∧ gs.length = nBlocks r gh.hdr.a (pre ++ pdu ++ post)
+      ∧ userData (gs.map typed) = pre ++ pdu ++ post ++ List.replicate gh.poc 0
+      ∧ (∀ g ∈ gs, g.rate = r ∧ g.ptype.isConfirmed = gh.hdr.a)
+      ∧ (∃ g, gs.getLast? = some g ∧ g.ptype.isLast = true ∧ ∀ g' ∈ gs.dropLast, g'.ptype.isLast = false) := by
+  have hbytes : ∀ b ∈ pre ++ pdu ++ post, b < 256 := by
+    intro b hb
+    simp only [List.mem_append] at hb
+    rcases hb with (hb | hb) | hb
+    · exact hpre b hb
+    · exact hpdu b hb
+    · exact hpost b hb
+  obtain ⟨bursts, t, recs, gs, h1, _, h3, h4, h5, h6, ⟨g, hg1, hg2, _, hg4⟩, h8, _⟩ :=
+    generated_received C raw r _ gh k cc raises two hbytes hcrc32 hcrc9 hpoc hbtf hn hk
+  exact ⟨bursts, t, recs, gs, h1, h3, h4, h5, h6, fun g hg => ⟨(h8 g hg).1, (h8 g hg).2.1⟩, g, hg1, hg2, hg4⟩
+
+/-- the own header quoted: `pdu` := the octets of the header of this very transmission.  The hand-over still has
+the header once and all N data blocks behind it. -/
+theorem own_header_quoted_delivered_whole (C : Crc) (raw : CsbkRaw) (r : Rate) (pre post : Bytes)
+    (gh : GenHeader) (k cc : Nat) (raises : List Bool) (two : Bool)
+    (hpre : ∀ b ∈ pre, b < 256) (hraw : ∀ b ∈ gh.hdr.raw, b < 256) (hpost : ∀ b ∈ post, b < 256)
+    (hcrc32 : ∀ d, C.crc32 d < 2 ^ 32) (hcrc9 : ∀ r d s c, C.crc9 r d s c < 2 ^ 9)
+    (hpoc : gh.poc = padOf r gh.hdr.a (pre ++ gh.hdr.raw ++ post))
+    (hbtf : gh.hdr.btf = some (nBlocks r gh.hdr.a (pre ++ gh.hdr.raw ++ post)))
+    (hn : nBlocks r gh.hdr.a (pre ++ gh.hdr.raw ++ post) ≤ 127) (hk : k ≤ 16) :
+    ∃ (t : Terminal) (recs : List Rec) (gs : List GenBlock) (bursts : List AbsBurst),
+      generate C raw r (pre ++ gh.hdr.raw ++ post) gh k cc = .ok bursts
+      ∧ run (Terminal.init raises) (bursts.map fun b => (two, b)) = .ok (t, recs)
+      ∧ allEvents recs =
+          [.started .data,
+           .dataEnded (.data gh.hdr)
+             ((preambleBtfs k (nBlocks r gh.hdr.a (pre ++ gh.hdr.raw ++ post) + 1)).map (fun b => Block.csbk (raw b))
+               ++ [.hdr gh.hdr] ++ gs.map typed)]
+      ∧ gs.length = nBlocks r gh.hdr.a (pre ++ gh.hdr.raw ++ post)
+      ∧ userData (gs.map typed) = pre ++ gh.hdr.raw ++ post ++ List.replicate gh.poc 0 := by
+  obtain ⟨bursts, t, recs, gs, h1, h2, h3, h4, h5, _⟩ :=
+    pdu_content_delivered_whole C raw r pre gh.hdr.raw post gh k cc raises two hpre hraw hpost hcrc32 hcrc9
+      hpoc hbtf hn hk
+  exact ⟨t, recs, gs, bursts, h1, h2, h3, h4, h5⟩
+
+/-- non-vacuity (1): rate 1/2 unconfirmed, 12 octets, then two serialised CONFIRMED rate 1/2 blocks numbered 5 and 6
+with the CRC-9 of the example CRC (12 octets each = exactly blocks 2 and 3 of the transmission), then 5 octets:
+4 blocks, 3 pad octets, all four typed unconfirmed -/
+def numPre : Bytes := (List.range 12).map (· + 100)
+
+def numBlock (dbsn : Nat) (d : Bytes) : GenBlock :=
+  { rate := .r12, ptype := .confirmed, data := d, dbsn := dbsn, crc9 := crcEx.crc9 .r12 d dbsn 0, crc32 := 0 }
+
+/-- the 24 octets of the two serialised confirmed blocks (serial number, CRC-9 field least significant bit first,
+ten data octets each) -/
+def numPdu : Bytes :=
+  [10, 120, 1, 2, 3, 4, 5, 6, 7, 8, 9, 10, 13, 45, 31, 32, 33, 34, 35, 36, 37, 38, 39, 40]
+
+example : bytesToBits numPdu
+    = (numBlock 5 ((List.range 10).map (· + 1))).asBits ++ (numBlock 6 ((List.range 10).map (· + 31))).asBits := by
+  decide +kernel
+
+def numHeader : GenHeader := { hdr := { btf := some 4, a := false, sap := 4, raw := [3] }, poc := 3 }
+
+example : numPdu.length = 2 * (octets .r12 false).1
+    ∧ nBlocks .r12 false (numPre ++ numPdu ++ selfPost) = 4 ∧ padOf .r12 false (numPre ++ numPdu ++ selfPost) = 3 := by
+  decide
+
+example : ∃ gs : List GenBlock, gs.length = 4
+    ∧ userData (gs.map typed) = numPre ++ numPdu ++ selfPost ++ [0, 0, 0]
+    ∧ ∀ g ∈ gs, g.ptype.isConfirmed = false := by
+  obtain ⟨_, _, _, gs, _, _, _, h4, h5, h6, _⟩ :=
+    pdu_content_delivered_whole crcEx (fun b => [b]) .r12 numPre numPdu selfPost numHeader 1 1 [false] false
+      (by decide) (by decide) (by decide) (fun d => Nat.mod_lt _ (by decide))
+      (fun _ _ _ _ => Nat.mod_lt _ (by decide)) (by decide) (by decide) (by decide) (by decide)
+  exact ⟨gs, by rw [h4]; decide, by rw [h5]; decide, fun g hg => (h6 g hg).2⟩
+
+/-- non-vacuity (2): the header quotes itself — its 12 octets are block 2 of 3 of its own rate 1/2 unconfirmed
+transmission (12 + 12 + 5 octets: 3 blocks, 3 pad octets, which is what the header announces) -/
+def ownHeader : GenHeader :=
+  { hdr := { btf := some 3, a := false, sap := 4, raw := [2, 67, 0, 4, 210, 0, 22, 46, 131, 8, 17, 34] }, poc := 3 }
+
+example : ∃ gs : List GenBlock, gs.length = 3
+    ∧ userData (gs.map typed) = numPre ++ ownHeader.hdr.raw ++ selfPost ++ [0, 0, 0] := by
+  obtain ⟨_, _, gs, _, _, _, _, h4, h5⟩ :=
+    own_header_quoted_delivered_whole crcEx (fun b => [b]) .r12 numPre selfPost ownHeader 2 1 [true, false] true
+      (by decide) (by decide) (by decide) (fun d => Nat.mod_lt _ (by decide))
+      (fun _ _ _ _ => Nat.mod_lt _ (by decide)) (by decide) (by decide) (by decide) (by decide)
+  exact ⟨gs, by rw [h4]; decide, by rw [h5]; decide⟩
+
 end Dmr.C07
